@@ -56,26 +56,42 @@ def run(ctx):
                   sat[which][0].ast if sat[which] else f,
                   'no return of time_point::%s() guarded by the comparison with the type\'s civil_%s: civil times whose instant '
                   'lies outside the range are not clamped' % (which, which), construct='saturate:maketime:%s' % which)
-    # the unsaturated conversions outside the table are reached only with the guard refuted
-    for rn in g.returns:
+    # the unsaturated conversions outside the table are reached only with the guard refuted.  Which return is which is
+    # read from guarded symbolic values: the search pointer equals the first entry / one past the last entry.
+    from ..symval import SymVal, single, render
+    from ..ptrnorm import ladd
+    ub = [x for x in walk(f) if x.get('kind') == 'CallExpr' and callee(x) and callee(x)[0] == 'fn' and
+          callee(x)[1].get('name') in ('upper_bound', 'lower_bound')]
+    sv0 = SymVal(ctx, f)
+    base = None
+    if len(ub) == 1:
+        a0 = single(sv0.value_ast(call_args(ub[0])[0]) or ())
+        if a0 is not None and a0[0] == 'ptr':
+            base = a0[1]
+    if base is None:
+        raise AnalysisBroken('C10-saturate: the table search of MakeTime was not found')
+    sv = SymVal(ctx, f, seed_calls=[(ub[0], ('ptr', base, {'U': 1}))])
+    size = '%s.size()' % base
+    csk = '%s#%s' % (params_of(f)[0]['name'], params_of(f)[0]['id'])
+    for rn in sv.cfg.returns:
+        if not kids(rn.ast):
+            continue
         rk = keys.key(kids(rn.ast)[0])
-        if not rk.startswith('cctz::MakeUnique((') :
+        if not rk.startswith('cctz::MakeUnique(('):
             continue
-        hp = F.path_facts([rn], history=True)
-        if not hp:
-            continue
-        before = all(any(op == '==' and 'begin' in a + b and 'tr' in a + b for (op, a, b) in ever) and
-                     any(op == '<=' and 'prev_civil_sec' in b for (op, a, b) in ever) for (now, ever) in hp)
-        after = all(any(op == '==' and ('end' in a + b or '.size()' in a + b) and 'tr' in a + b for (op, a, b) in ever) for (now, ever) in hp)
-        if before:
+        fs = sv.facts(sv.conds_at(rn))
+        lins = [fa for fa in fs if fa[0] == 'lin' and fa[1] == '==']
+        before = any(len([k_ for k_ in fa[2] if k_]) == 1 and '' not in fa[2] and not any(size == k_ for k_ in fa[2]) for fa in lins)
+        after = any(size in fa[2] and len([k_ for k_ in fa[2] if k_]) == 2 and '' not in fa[2] for fa in lins)
+        if before and any(fa[0] == '<=' and fa[1] == csk and fa[2].endswith('.prev_civil_sec') for fa in fs):
             n += 1
-            ok = all(any(op == '<=' and 'civil_min' in a for (op, a, b) in now) for (now, ever) in hp)
+            ok = any(fa[0] == '<=' and fa[1].endswith('.civil_min') and fa[2] == csk for fa in fs)
             ctx.check(ok, 'C10-saturate', 'before-first conversion happens only for cs >= civil_min', rn.ast,
                       'the instant of a civil time before the first transition is computed without cs >= civil_min having been '
                       'established: the subtraction overflows for civil times near civil_second::min()', construct='saturate:before')
         elif after:
             n += 1
-            ok = all(any(op == '<=' and 'civil_max' in b for (op, a, b) in now) for (now, ever) in hp)
+            ok = any(fa[0] == '<=' and fa[1] == csk and fa[2].endswith('.civil_max') for fa in fs)
             ctx.check(ok, 'C10-saturate', 'after-last conversion happens only for cs <= civil_max', rn.ast,
                       'the instant of a civil time after the last transition is computed without cs <= civil_max having been '
                       'established: the addition overflows for civil times near civil_second::max()', construct='saturate:after')
@@ -86,18 +102,19 @@ def run(ctx):
     F = ctx.facts(f)
     keys = F.keys
     fo = Folder(u)
+    shk = '%s#%s' % (params_of(f)[1]['name'], params_of(f)[1]['id'])        # the 400-year shift count (second parameter)
     mults = [x for x in walk(f) if x.get('kind') == 'BinaryOperator' and x.get('opcode') == '*' and
-             any(re.match(r'^c4_shift#', keys.key(c)) for c in kids(x))]
+             any(keys.key(c) == shk for c in kids(x))]
     for x in mults:
         fs = F.facts_at_ast(x) or frozenset()
-        other = [keys.key(c) for c in kids(x) if not re.match(r'^c4_shift#', keys.key(c))][0]
+        other = [keys.key(c) for c in kids(x) if keys.key(c) != shk][0]
         k400 = int(other[2:]) if other.startswith('n:') else None
         bound = None
         for (op, a, b) in fs:
             b = F.resolve_key(b)
-            if op == '<=' and re.match(r'^c4_shift#', a) and b.startswith('n:'):
+            if op == '<=' and a == shk and b.startswith('n:'):
                 bound = int(b[2:])
-            if op == '<=' and re.match(r'^c4_shift#', a) and k400 is not None and \
+            if op == '<=' and a == shk and k400 is not None and \
                     re.match(r'^\((\w+::)*max\(\)\.count\(\) / n:%d\)$' % k400, b):
                 bound = (2 ** 63 - 1) // k400         # seconds::max().count() is the int64 maximum
         ok = k400 is not None and bound is not None and bound * k400 <= 2 ** 63 - 1
